@@ -1,0 +1,12 @@
+//go:build verif
+
+package asyncbufio
+
+// Thin read-only access for the out-of-tree verification harness (/verif/harness, property C07).
+// Compiled only with `-tags verif`; adds no behaviour to the normal build.
+
+// VerifQueueLen reports how many chunks are waiting in the data channel right now.
+func (aw *Writer) VerifQueueLen() int { return len(aw.datachannel) }
+
+// VerifQueueCap reports the capacity of the data channel.
+func (aw *Writer) VerifQueueCap() int { return cap(aw.datachannel) }
